@@ -528,8 +528,10 @@ CatalogFragment::CatalogFragment(DFS::Format format,
     if (address & 0x20000)
       {
 	// We sign-extend just two digits (unlike the example above) ,
-	// as this is what the BBC model B DFS does.
-	return 0xFF0000 | address;
+	// as this is what the BBC model B DFS does.  Bits 23-18 become
+	// copies of bit 17; bits 16-0 keep their value (see dfs(1),
+	// "SIGN EXTENSION OF ADDRESSES").
+	return 0xFC0000 | address;
       }
     else
       {
